@@ -15,7 +15,7 @@ def sh(cmd, cwd=None, env=None):
 
 def main():
     sid, idx, props = sys.argv[1], sys.argv[2], sys.argv[3:]
-    out = '/tmp/seed/out_%s' % sid
+    out = os.environ.get('SEED_OUT') or '/tmp/seed/out_%s' % sid
     wt = '/tmp/seed/wt_%s' % sid
     patch = '%s/patch%s.diff' % (out, idx)
     demo = '%s/demo%s.py' % (out, idx)
@@ -46,7 +46,7 @@ def main():
             meta['ran'].append({'check': p, 'exit': rc, 'lines': lines})
     finally:
         sh('git checkout -- .', wt)
-    dst = '/verif/seeded/%s_%s' % (sid, idx)
+    dst = '/verif/seeded/%s_%s' % (sid, os.environ.get('SEED_IDX') or idx)
     os.makedirs(dst, exist_ok=True)
     shutil.copy(patch, dst + '/patch.diff')
     shutil.copy(demo, dst + '/demo.py')
